@@ -268,10 +268,11 @@ def comp_key(node):
         def visit_Name(self, n):
             return ast.copy_location(ast.Name(id=ren.get(n.id, n.id), ctx=ast.Load()), n)
     import copy
-    elt = Ren().visit(copy.deepcopy(node.elt))
+    parts = [node.key, node.value] if isinstance(node, ast.DictComp) else [node.elt]
+    elt = [Ren().visit(copy.deepcopy(x)) for x in parts]
     ifs = [Ren().visit(copy.deepcopy(c)) for c in g.ifs]
-    text = ast.unparse(elt) + ' if ' + ' if '.join(ast.unparse(c) for c in ifs)
-    free = sorted({x.id for c in [node.elt] + list(g.ifs) for x in ast.walk(c) if isinstance(x, ast.Name)} - set(names))
+    text = ': '.join(ast.unparse(x) for x in elt) + ' if ' + ' if '.join(ast.unparse(c) for c in ifs)
+    free = sorted({x.id for c in parts + list(g.ifs) for x in ast.walk(c) if isinstance(x, ast.Name)} - set(names))
     return text, free
 
 
@@ -289,6 +290,7 @@ def comp_of_source(src_text, src, env_terms):
 
 
 PVISH = ('pv', 'plist', 'module', 'chars', 'lazylist', 'dictlit', 'dictalt', 'func', 'truthonly', 'slice')
+TYPE_TESTS = {'is_pd', 'is_arr', 'is_df', 'is_series', 'is_ts', 'is_num', 'is_int', 'is_str', 'is_date', 'is_bool', 'is_tss', 'is_arrs'}
 NUMERIC_BUILTINS = {'len', 'min', 'max', 'abs', 'int', 'bool', 'range', 'zip', 'list', 'tuple', 'sum', 'sorted', 'set', 'enumerate', 'dict',
                     'isinstance', 'getattr', 'all', 'any', 'float', 'str', 'reversed', 'type'}
 
@@ -425,7 +427,15 @@ class Pandas:
         return NotImplemented
 
     def dictcomp(self, ex, st, e):
-        ex.use('engine:dict comprehensions evaluate to an arbitrary opaque object')
+        if len(e.generators) == 1:
+            g = e.generators[0]
+            src = ex.eval(st, g.iter)
+            if self.convertible(src):
+                text, free = comp_key(e)
+                terms = [self.to_pv(ex, st, st.env[n]) for n in free if n in st.env and self.convertible(st.env[n])]
+                ex.use('model:a dict comprehension is an uninterpreted function of its source and the locals it reads, named by its key, value and filter expressions')
+                return P(COMP(text, self.to_pv(ex, st, src), terms))
+        ex.use('engine:dict comprehensions with several generators evaluate to an arbitrary opaque object')
         return self.opaque('DictComp')
 
     def listcomp(self, ex, st, e):
@@ -523,16 +533,20 @@ class Pandas:
         e2 = ast.copy_location(ast.Call(func=e.func, args=e.args, keywords=[q for q in e.keywords if q.arg is not None]), e)
         if isinstance(e.func, ast.Attribute):
             recv = ex.eval(st, e.func.value)
+        elif not isinstance(e.func, ast.Name) or (e.func.id in st.env):
+            fnv = ex.eval(st, e.func)
         args, kwargs = ex._args(st, e2)
         res = None
         for c, extra in reversed(alts):
             kw = dict(kwargs, **extra)
             if isinstance(e.func, ast.Attribute):
                 r = self.method(ex, st, e2, recv, e.func.attr, args, kw)
-            elif isinstance(e.func, ast.Name):
+            elif isinstance(e.func, ast.Name) and e.func.id not in st.env:
                 r = self.call(ex, st, e2, e.func.id, args, kw)
+            elif fnv.kind == 'func':
+                r = ex.call_func(st, fnv, args, kw)
             else:
-                r = NotImplemented
+                r = self.call_value(ex, st, e2, fnv, args, kw)
             if r is NotImplemented:
                 raise OutOfSubset('call with ** of %s' % ast.unparse(e.func)[:40])
             res = r if res is None else P(If(simplify(c), self.to_pv(ex, st, r), self.to_pv(ex, st, res)))
@@ -624,6 +638,8 @@ class Pandas:
             r = self.handlers[fname](self, ex, st, args, kwargs)
             if r is not NotImplemented:
                 return r
+        if fname in st.env and st.env[fname].kind == 'pv':
+            return self.call_value(ex, st, e, st.env[fname], args, kwargs)      # a local bound to an opaque callable
         if fname in ex.inline or (fname in st.env):
             return NotImplemented
         allv = list(args) + list(kwargs.values())
@@ -636,6 +652,8 @@ class Pandas:
                 return I(a.n)
             if a.kind == 'chars':
                 return I(len(a.codes))
+            if a.kind == 'dictlit':
+                return I(len(a.f['d']))
             return NotImplemented
         if fname == 'list' and len(args) == 1 and not kwargs:
             a = args[0]
@@ -680,7 +698,11 @@ class Pandas:
             return NotImplemented
         if self._is_repo(fname) and all(self.convertible(v) for v in allv):
             return self.rcall(ex, st, fname, args, kwargs)
-        if all(self.convertible(v) for v in allv) and (any(v.kind in PVISH for v in allv) or not allv or '.' in fname or fname not in NUMERIC_BUILTINS):
+        if fname in TYPE_TESTS and len(args) == 1 and not kwargs and args[0].kind in ('plist', 'lazylist'):
+            ex.use('axiom:pyg_base._types predicates on a list / numpy array: is_arr holds exactly for the array')
+            return B(fname == 'is_arr' and args[0].kind == 'plist' and args[0].tag == 'ndarray')
+        if all(self.convertible(v) for v in allv) and (any(v.kind in PVISH for v in allv) or not allv or '.' in fname
+                                                       or (fname not in NUMERIC_BUILTINS and fname not in TYPE_TESTS)):
             ex.use('model:functions of pandas / numpy / other modules are uninterpreted functions of their arguments, one symbol per name and call shape')
             ts = [self.to_pv(ex, st, a) for a in args] + [self.to_pv(ex, st, kwargs[q]) for q in sorted(kwargs)]
             res = P(U(_name('F', fname, len(args), kwargs), [PV] * len(ts))(*ts))
